@@ -534,3 +534,117 @@ Example C04_ex_connect_ring_nowrap :
   connect_locations locs (Some 100) = Ok [mkPart 0 50 2] /\
   wrapping_shorter [[mkPart 0 5 1]; [mkPart 0 12 1]; [mkPart 60 70 1]] 100 = true.
 Proof. repeat split; reflexivity. Qed.
+
+(* ====================================================================================
+   Fourth pass.  location_bridges_origin(location, allow_reversing=True): the answer and the ARGUMENT
+   afterwards (specification 119); offset_location on a ring: the transcription-order clause of
+   specification 107, the guarded merge loop and the two recorded finding classes.
+   ==================================================================================== *)
+
+(* the answer: the exon order is invalid for the strand and, on the reverse strand, so is the reversed order *)
+Theorem C04_bridges_reversing_answer : forall l,
+  fst (bridges_reversing l) = bridges l && negb ((lstrand l =? -1) && negb (bridges (rev l))).
+Proof. exact bridges_reversing_answer. Qed.
+Print Assumptions C04_bridges_reversing_answer.
+
+(* a location reported as bridging is left exactly as it was ("swap back so it will be reported as it was") *)
+Theorem C04_bridges_reversing_true_keeps : forall l,
+  fst (bridges_reversing l) = true -> snd (bridges_reversing l) = l.
+Proof. exact bridges_reversing_true_keeps. Qed.
+Print Assumptions C04_bridges_reversing_true_keeps.
+
+(* otherwise the argument is unchanged, or it is the reversed exon list of a reverse-strand location, reported
+   as not bridging, and that reversed order is indeed a non-bridging one *)
+Theorem C04_bridges_reversing_arg : forall l,
+  snd (bridges_reversing l) = l \/
+  (snd (bridges_reversing l) = rev l /\ lstrand l = -1 /\ fst (bridges_reversing l) = false /\
+   bridges (rev l) = false).
+Proof. exact bridges_reversing_arg. Qed.
+Print Assumptions C04_bridges_reversing_arg.
+
+(* asking twice: the same answer, the same object *)
+Theorem C04_bridges_reversing_twice : forall l,
+  bridges_reversing (snd (bridges_reversing l)) = bridges_reversing l.
+Proof. exact bridges_reversing_twice. Qed.
+Print Assumptions C04_bridges_reversing_twice.
+
+(* the model satisfies specification 119 on every location; soundness of the specification *)
+Theorem C04_bridges_reversing_spec : forall l,
+  check_bridges_reversing l (fst (bridges_reversing l)) (snd (bridges_reversing l)) = 0.
+Proof. exact bridges_reversing_spec. Qed.
+Print Assumptions C04_bridges_reversing_spec.
+
+Theorem C04_spec_bridges_reversing_sound : forall a ans a', check_bridges_reversing a ans a' = 0 ->
+  (ans = true -> a' = a) /\
+  (a' = a \/ (a' = rev a /\ lstrand a = -1 /\ bridges a' = false)) /\
+  ans = fst (bridges_reversing a).
+Proof. exact check_bridges_reversing_sound. Qed.
+Print Assumptions C04_spec_bridges_reversing_sound.
+
+(* the final merge loop of offset_location, GUARDED: all parts proper and of one strand, and no touching pair of
+   parts directly after a touching pair -> the loop succeeds and keeps exactly the bases and the length *)
+Theorem C04_offset_merge_guarded : forall st p0 l,
+  Forall (fun q => ps q <= pe q /\ pst q = st) (p0 :: l) ->
+  touching_run (p0 :: l) = false ->
+  exists r, merge_adjacent p0 [p0] l = Ok r /\
+    (forall x, in_loc x r = in_loc x (p0 :: l)) /\ llen r = llen (p0 :: l).
+Proof. exact merge_adjacent_guarded. Qed.
+Print Assumptions C04_offset_merge_guarded.
+
+(* without the guard the statement "shifting keeps the bases and the length" is FALSE for the code as it is
+   (finding offset_merge_drops_part): join{[15:20),[0:5),[5:9)} +5 on a ring of 20 gives [5:14) *)
+Theorem C04_offset_merge_drops_part_refuted :
+  exists a off N r,
+    pre_offset a (Some N) = true /\ offset_location a off (Some N) = Ok r /\
+    llen r <> llen a /\ in_loc 15 a = true /\ in_loc ((15 + off) mod N) r = false /\
+    check_offset_ring N a off (Ok r) = 4 /\ offset_class a off (Some N) = 1.
+Proof. exact offset_merge_drops_part_refuted. Qed.
+Print Assumptions C04_offset_merge_drops_part_refuted.
+
+(* "shifting rotates the location" read on the bases in transcription order is FALSE for a reverse-strand exon
+   crossing the wrap point (finding offset_reverse_wrap_order): [13:18)(-) +5 on a ring of 20 gives
+   join{[18:20)(-),[0:3)(-)} - the right bases, but not recognised as crossing the origin, and connected to the
+   whole record *)
+Theorem C04_offset_reverse_wrap_order_refuted :
+  exists p off N r,
+    pst p = -1 /\ pre_offset [p] (Some N) = true /\ offset_location [p] off (Some N) = Ok r /\
+    rotated_bases N off r [p] = true /\
+    tx_bases r <> map (fun x => (x + off) mod N) (tx_bases [p]) /\
+    bridges r = false /\ connect_locations [r] (Some N) = Ok [mkPart 0 N (-1)] /\
+    check_offset_ring N [p] off (Ok r) = 7 /\ offset_class [p] off (Some N) = 2.
+Proof. exact offset_reverse_wrap_order_refuted. Qed.
+Print Assumptions C04_offset_reverse_wrap_order_refuted.
+
+(* soundness of the transcription-order clause (7) of specification 107 *)
+Theorem C04_spec_offset_ring_order_sound : forall N a off out,
+  check_offset_ring N a off out = 0 -> llen a <> N ->
+  exists r, out = Ok r /\ tx_bases r = map (fun x => (x + off) mod N) (tx_bases a).
+Proof. exact check_offset_ring_tx_sound. Qed.
+Print Assumptions C04_spec_offset_ring_order_sound.
+
+(* non-vacuity / the witnesses of this pass *)
+Example C04_ex_bridges_reversing :
+  (* a reverse-strand origin-spanning gene with two exons before the origin: both orders invalid, reported as
+     bridging, left as it was *)
+  bridges_reversing [mkPart 0 3 (-1); mkPart 15 18 (-1); mkPart 6 9 (-1)]
+    = (true, [mkPart 0 3 (-1); mkPart 15 18 (-1); mkPart 6 9 (-1)]) /\
+  (* the alternate annotation order of a plain reverse-strand gene: reversed in place, not bridging *)
+  bridges_reversing [mkPart 0 3 (-1); mkPart 6 9 (-1); mkPart 12 15 (-1)]
+    = (false, [mkPart 12 15 (-1); mkPart 6 9 (-1); mkPart 0 3 (-1)]).
+Proof. vm_compute. split; reflexivity. Qed.
+
+Example C04_ex_offset_merge_guarded :
+  touching_run [mkPart 15 20 1; mkPart 0 3 1; mkPart 3 9 1] = false /\
+  merge_adjacent (mkPart 15 20 1) [mkPart 15 20 1] [mkPart 0 3 1; mkPart 3 9 1]
+    = Ok [mkPart 15 20 1; mkPart 0 9 1].
+Proof. vm_compute. split; reflexivity. Qed.
+
+(* the third reported input, Record.extend_location of join{[30:100),[0:5)} by 31 on a ring of 100, lies in the
+   recorded class extend_near_full (class 1): bases right, parts overlapping *)
+Example C04_ex_extend_near_full_second_witness :
+  extend_location [mkPart 30 100 1; mkPart 0 5 1] 31 100 true
+    = Ok [mkPart 99 100 1; mkPart 0 100 1; mkPart 0 36 1] /\
+  extend_class [mkPart 30 100 1; mkPart 0 5 1] 31 100 true = 1 /\
+  check_extend [mkPart 30 100 1; mkPart 0 5 1] 31 100 true
+    (Ok [mkPart 99 100 1; mkPart 0 100 1; mkPart 0 36 1]) = 3.
+Proof. vm_compute. repeat split; reflexivity. Qed.
